@@ -78,7 +78,7 @@ def all_conds():
     out += [["cmp", "as_path_length", "==", 3], ["cmp", "as_path_length", ">=", 2], ["cmp", "as_path_length", "<=", 5],
             ["cmp", "as_path_length", "between_included", [1, 5]],
             ["cmp", "interface", "==", "eth0"], ["cmp", "protocol", "==", "bgp"], ["cmp", "metric", "==", 10],
-            ["cmp", "net_len", "==", 24], ["cmp", "family", "==", 4], ["cmp", "local_pref", "<", 100],
+            ["cmp", "net_len", "==", 24], ["cmp", "net_len", "!=", 24], ["cmp", "family", "==", 4], ["cmp", "local_pref", "<", 100],
             ["aspf", "ASP1"], ["aspf", "ASP2"]]
     for fn, a, b in (("match_v4", "PL4A", "PL4B"), ("match_v6", "PL6A", "PL6B")):
         for names in ([a], [a, b]):
@@ -157,13 +157,14 @@ ACT_REP = _first_per([a for a in ACTS if len(a[1]) == 1], lambda a: (a[0], a[1][
 
 def bound_text(tier):
     q = ("one-statement space complete: (%d conditions + none) x (%d actions + none) x {huawei, arista, cumulus}, result "
-         "allow, for the base entity variant (OR, literal, 1 member) and, for the other 7 entity variants (logic x use_regex "
-         "x 1-2 members), every pair with a community-dependent element; every single condition and every single action x "
-         "8 entity variants x results {deny, next, next_policy, <none>}; statement number None x every single element"
-         % (len(CONDS), len(ACTS)))
+         "allow, entity variant (OR, literal, 1 member); every single condition and every single action x 8 entity variants "
+         "(logic AND/OR x use_regex x 1-2 members; community-dependent elements only beyond the base variant) x results "
+         "{allow, deny, next, next_policy, <none>}; statement number None x every single element; empty statement, empty "
+         "policy, no policy" % (len(CONDS), len(ACTS)))
     if tier == "quick":
         return q + "; complete"
-    return (q + "; plus (base variant): one-statement cross x the 4 other result forms; two-condition statements: all "
+    return (q + "; plus: for the other 7 entity variants every one-statement (condition, action) pair with a community-"
+            "dependent element; (base variant) one-statement cross x the 4 other result forms; two-condition statements: all "
             "ordered condition pairs x no action and all unordered pairs x %d actions (one per rule.* method); two-action "
             "statements: all action pairs (unordered, ordered where both are immediate rule.set_* calls) x (none + %d "
             "conditions, one per R.* factory); two-statement policies and two one-statement policies with each statement a "
@@ -222,7 +223,7 @@ def _entities(ev):
 
 # ---------------------------------------------------------------------------------------------------
 # building a program through the public API
-_OPS = {"==": operator.eq, ">=": operator.ge, "<=": operator.le, "<": operator.lt, ">": operator.gt}
+_OPS = {"==": operator.eq, "!=": operator.ne, ">=": operator.ge, "<=": operator.le, "<": operator.lt, ">": operator.gt}
 
 
 def mk_cond(c):
@@ -620,7 +621,10 @@ def judge_cumulus(inp, out):
     out["labels"].append("cumulus stream ok")
     text = "\n".join(x if isinstance(x, str) else " ".join(x) for x in items)            # what Entire.__call__ writes
     exp_tree, orphans = ref.tree_from_indent(items)
-    got = env.tree_to_list(tabparser.parse_to_tree(text=text, splitter=CommonFormatter().split))
+    try:
+        got = env.tree_to_list(tabparser.parse_to_tree(text=text, splitter=CommonFormatter().split))
+    except tabparser.ParserError as e:
+        got = "ParserError: %s" % e
     if orphans or got != ref.as_list(exp_tree):
         out["viol"].append(({"kind": "nesting", "vendor": "cumulus", "generator": "CumulusPolicyGenerator"},
                             "parsed=%r\nyielded=%r orphans=%r" % (got, ref.as_list(exp_tree), orphans)))
@@ -679,7 +683,7 @@ def programs(part, evi):
         singles = [(c, None) for c in CONDS] + [(None, a) for a in ACTS]
         for c, a in singles:
             if base or (c is not None and cond_is_comm(c)) or (a is not None and act_is_comm(a)):
-                for r in RESULTS[1:]:
+                for r in (RESULTS[1:] if base else RESULTS):      # base variant: 'allow' singles are in part 1s
                     yield one_policy([stmt(_l(c), _l(a), r)])
                 if base:
                     yield one_policy([stmt(_l(c), _l(a), "allow", None)])
@@ -724,12 +728,13 @@ def programs(part, evi):
 def blocks(tier, seed):
     bl = []
     for v in range(len(VENDORS)):
+        bl += [{"part": "1s", "vendor": v, "ev": 0, "k": k, "n": 12} for k in range(12)]
         for evi in range(len(EVS)):
-            n = 8 if evi == 0 else 2
-            bl += [{"part": "1s", "vendor": v, "ev": evi, "k": k, "n": n} for k in range(n)]
             bl.append({"part": "1r", "vendor": v, "ev": evi, "k": 0, "n": 1})
     if tier == "thorough":
         for v in range(len(VENDORS)):
+            for evi in range(1, len(EVS)):
+                bl += [{"part": "1s", "vendor": v, "ev": evi, "k": k, "n": 2} for k in range(2)]
             for part, n in (("1sr", 6), ("2c", 12), ("2a", 16), ("2s", 6), ("2p", 6)):
                 bl += [{"part": part, "vendor": v, "ev": 0, "k": k, "n": n} for k in range(n)]
     return bl
